@@ -433,6 +433,19 @@ def run_case(case, ctx):
                 check_conds("base", bb.conditionals, ref[2], text, ctx, out)
                 if len(ref[2]) >= 2:
                     ctx.nt(text)
+                # the caller owns the returned object: changing it must not leak into a later parse
+                bb.conditionals[max(bb.conditionals, default=0) + 7] = next(iter(bb.conditionals.values()), None)
+                bb.conditionals.pop(1, None)
+                bb.signature.append("zzLeak")
+                ctx.ev(1)
+                ctx.stratum("reparse-after-mutation")
+                again = lib_call(parse_belief_base, text)
+                if again[0] != "ok":
+                    out.append(obs("base|reparse-rejected", {"text": text, "error": again[1]}))
+                elif list(again[1].signature) != ref[0] or list(again[1].conditionals.keys()) != list(range(1, len(ref[2]) + 1)):
+                    out.append(obs("base|reparse-sees-earlier-mutation",
+                                   {"text": text, "signature": list(again[1].signature),
+                                    "keys": list(again[1].conditionals.keys())}))
     elif kind == "queries":
         exp = [(fm.from_json(B), fm.from_json(A)) for B, A in case["conds"]]
         ref = clref.parse_query_list(text)
@@ -446,6 +459,11 @@ def run_case(case, ctx):
             check_conds("queries", got[1].conditionals, ref, text, ctx, out)
             if len(ref) >= 2:
                 ctx.nt(text)
+            got[1].conditionals.pop(1, None)
+            ctx.ev(1)
+            again = lib_call(parse_queries, text)
+            if again[0] != "ok" or list(again[1].conditionals.keys()) != list(range(1, len(ref) + 1)):
+                out.append(obs("queries|reparse-sees-earlier-mutation", {"text": text}))
     if ctx.record and len(text) > 12:
         ctx.sample({"kind": kind, "text": text})
     return out
